@@ -5,7 +5,7 @@
    [symbolize mode e script p = Out p' err calls]: Symbolizer.Symbolize(mode, e_srcs e, p) left the
    profile as p' (changed in place, also when it returns an error: err = true) after making
    the plug-in calls [calls]. *)
-From PV Require Import M_Symbolize S_Symbolize L_Symbolize L_SymbolizeValid L_SymbolizeCheck L_SymbolizeFlags.
+From PV Require Import M_Symbolize M_SymbolizeFetch S_Symbolize L_Symbolize L_SymbolizeValid L_SymbolizeCheck L_SymbolizeFlags L_SymbolizeFetch.
 Open Scope Z_scope.
 
 (* the modelled code has no reachable panic (demanglerModeToOptions is only given modes it knows) *)
@@ -104,6 +104,63 @@ Theorem headroom_checker_exact : forall p p', id_headroomb p p' = true <-> id_he
 Proof. exact id_headroomb_spec_lemma. Qed.
 Print Assumptions headroom_checker_exact.
 
+(* -- the driver's pipeline around Symbolize (fetchProfiles for one fetched profile: fake mapping,
+      collectMappingSources, Symbolize, unsourceMappings, CheckValid; M_SymbolizeFetch).
+      [fetch_symbolize mode e absurl script src p = FOut p3 calls]: fetchProfiles returned p3.
+      [src_ok]: the fetcher reported no URL (local file) or one that url.Parse calls absolute (as
+      adjustURL produces).  [in_F34]: some fetched mapping without build id already has a file that
+      parses as an absolute URL (known finding F34: unsourceMappings erases that file too). -- *)
+Theorem fetch_never_panics : forall mode e absurl script src p, fetch_symbolize mode e absurl script src p <> FPanic.
+Proof. exact fetch_no_panic_lemma. Qed.
+Print Assumptions fetch_never_panics.
+
+Theorem fetch_frame : forall mode e absurl script src p p3 calls,
+  fetch_symbolize mode e absurl script src p = FOut p3 calls ->
+  src_ok absurl src -> in_F34 absurl (add_fake p) = false -> frame_ok (add_fake p) p3.
+Proof. exact fetch_frame_lemma. Qed.
+Print Assumptions fetch_frame.
+
+Theorem fetch_lines_flags_valid_names : forall mode e absurl script src p p3 calls,
+  fetch_symbolize mode e absurl script src p = FOut p3 calls ->
+  lines_attached (add_fake p) p3 /\ flags_raised (add_fake p) p3 /\ check_valid p3 = true /\
+  (filter_nonempty (e_filt e) -> names_kept (add_fake p) p3).
+Proof. exact fetch_clauses_lemma. Qed.
+Print Assumptions fetch_lines_flags_valid_names.
+
+Theorem fetch_left_alone_unless_force : forall mode e absurl script src p p3 calls,
+  fetch_symbolize mode e absurl script src p = FOut p3 calls ->
+  force_requested mode = false -> src_ok absurl src -> in_F34 absurl (add_fake p) = false ->
+  left_alone (add_fake p) p3.
+Proof. exact fetch_left_alone_lemma. Qed.
+Print Assumptions fetch_left_alone_unless_force.
+
+(* with symbolization switched off the profile comes back exactly as fetched: the source URL that
+   collectMappingSources wrote into file-less mappings is taken out again *)
+Theorem fetch_none_returns_fetched_profile : forall mode e absurl script src p p3 calls,
+  fetch_symbolize mode e absurl script src p = FOut p3 calls ->
+  mo_none (parse_mode mode) = true -> src_ok absurl src -> in_F34 absurl (add_fake p) = false ->
+  p3 = add_fake p /\ calls = [].
+Proof. exact fetch_none_lemma. Qed.
+Print Assumptions fetch_none_returns_fetched_profile.
+
+(* F34: inside the class the frame condition fails on the unchanged tree *)
+Definition ex_env_f34 : env := {| e_http := fun _ => false; e_symz := fun _ => EmptyString; e_filt := fun _ s => s; e_srcs := [] |}.
+Definition f34_absurl (f : string) : bool := String.eqb f "x:y".
+Definition f34_profile : profile :=
+  with_w empty_profile
+    {| w_maps := [{| m_id := 1; m_start := 4096; m_limit := 8192; m_offset := 0; m_file := "x:y"; m_buildid := "";
+                     m_hasfn := false; m_hasfile := false; m_hasline := false; m_hasinline := false |}];
+       w_locs := [{| l_id := 1; l_mapping := 1; l_addr := 4100; l_lines := []; l_folded := false |}];
+       w_funs := []; w_orc := {| o_script := []; o_log := [] |} |}.
+Theorem fetch_frame_refuted :
+  exists p3, fetch_symbolize "none" ex_env_f34 f34_absurl [] "" f34_profile = FOut p3 [] /\
+             in_F34 f34_absurl (add_fake f34_profile) = true /\ ~ frame_ok (add_fake f34_profile) p3.
+Proof.
+  eexists. split; [vm_compute; reflexivity|]. split; [vm_compute; reflexivity|].
+  intros [_ _ _ M _]. vm_compute in M. discriminate M.
+Qed.
+Print Assumptions fetch_frame_refuted.
+
 (* -- non-vacuity: a concrete run satisfying every hypothesis above -- *)
 Definition ex_env : env := {| e_http := fun _ => false; e_symz := fun _ => EmptyString; e_filt := fun _ s => s; e_srcs := [] |}.
 Definition ex_profile : profile :=
@@ -124,6 +181,13 @@ Example run_example :
     map f_id (p_function p') = [7; 8] /\ map f_name (p_function p') = ["<unknown>"; "f"]%string /\
     check_valid ex_profile = true /\ check_valid p' = true /\ force_requested "local" = false.
 Proof. eexists. vm_compute. repeat split. Qed.
+Example fetch_example :
+  exists p3, fetch_symbolize "no" ex_env (fun f => String.eqb f "http://h/debug/pprof/profile") [] "http://h/debug/pprof/profile"
+               (with_maps_locs ex_profile [fake_mapping] (p_location ex_profile)) = FOut p3 [] /\
+             map m_file (p_mapping p3) = [EmptyString] /\
+             src_ok (fun f => String.eqb f "http://h/debug/pprof/profile") "http://h/debug/pprof/profile" /\
+             in_F34 (fun f => String.eqb f "http://h/debug/pprof/profile") (with_maps_locs ex_profile [fake_mapping] (p_location ex_profile)) = false.
+Proof. eexists. vm_compute. repeat split. now right. Qed.
 Example filter_nonempty_example : filter_nonempty (e_filt ex_env).
 Proof. intros d s H. exact H. Qed.
 Example headroom_example : forall p', p_function p' = (p_function ex_profile ++ [mk_function 8 "f" "f" "a.c" 1])%list -> id_headroom ex_profile p'.
